@@ -60,6 +60,8 @@ def case_strategy(draw):
     if draw(st.integers(0, 7)) == 0:
         nms[draw(st.integers(0, ns - 1))] = "subject_name"
     nms = list(dict.fromkeys(nms))
+    if draw(st.integers(0, 2)) == 0:
+        nms = draw(gen.subject_name_variants(nms, 6))
     subjects = []
     shape_nd = draw(st.sampled_from([1, 2, 3]))
     for nm in nms:
